@@ -29,6 +29,12 @@ def cells(tier):
     for how in ("copy", "copy.copy", "astype", "astype_other", "tensor", "Tensor", "astensor_other_dtype", "astensor_const", "copy_const"):
         for src in ("leaf", "terminal", "view"):
             yield ("conv", how, src)
+    # several independent graphs in one process: their terminals' (and leaves') gradients must not be aliased with each other
+    for shape in ((), (1,), (3,), (2, 2)):
+        for dt in ("float64", "float32", "float16"):
+            for seedk in ("default", "pyscalar", "array", "same_array"):
+                for form in ("sum", "elementwise", "leaf"):
+                    yield ("multi", shape, dt, seedk, form)
     for aname, depth in BOUNDS[tier]:
         for h in programs(aname, depth):
             yield ("prog", aname, h)
@@ -82,6 +88,7 @@ def alias_oracle(tensors, seed_arr, terminal):
         if not a.grad.size or not a.grad.flags.writeable:
             continue
         before = [(None if t.grad is None else t.grad.copy()) for _, t in tensors]
+        own = a.grad.copy()
         a.grad[...] += 1024.0
         for (nb, b), old in zip(tensors, before):
             if b is a or old is None:
@@ -91,7 +98,7 @@ def alias_oracle(tensors, seed_arr, terminal):
         for (nb, b), d in zip(tensors, datas):
             if not np.array_equal(b.data, d, equal_nan=True):
                 return ("grad_edit_changes_data", "editing %s.grad in place changed %s.data" % (na, nb))
-        a.grad[...] -= 1024.0
+        a.grad[...] = own  # (exact restore: +-1024 is lossy in float16)
     return None
 
 
@@ -222,7 +229,58 @@ def check_conv(how, src):
     return r
 
 
+def check_multi(shape, dt, seedk, form):
+    """three independent programs of the same shape/dtype in one process; terminal kinds: 0-d reduction of a leaf of `shape`,
+    elementwise result of `shape`, or the leaf itself"""
+    import mygrad as mg
+
+    shared_seed = ops.gtable(shape).astype(dt) if form != "sum" else np.array(1.5, dtype=dt)
+
+    def build(k):
+        x = mg.tensor((ops.vals(shape, 3 * k + 1)).astype(dt))
+        L = (x * 2.0).sum() if form == "sum" else (x * 2.0 if form == "elementwise" else x)
+        return x, L
+
+    def seed_for(L, k):
+        if seedk == "default":
+            return None
+        if seedk == "pyscalar":
+            return 1.0
+        if seedk == "same_array":
+            return shared_seed  # the caller passes one array to several backward calls
+        return (ops.gtable(L.shape, k) if L.ndim else np.array(1.5)).astype(dt)
+
+    (x1, L1), (x2, L2) = build(0), build(1)
+    s1, s2 = seed_for(L1, 0), seed_for(L2, 1)
+    keep = None if not isinstance(s1, np.ndarray) else s1.copy()
+    L1.backward(s1)
+    L2.backward(s2)
+    tensors = [("x1", x1), ("L1", L1), ("x2", x2), ("L2", L2)]
+    tensors = [(n, a) for i, (n, a) in enumerate(tensors) if all(a is not b for _, b in tensors[:i])]
+    # (a terminal's own .grad may be the caller's seed array; with one seed array passed twice the two terminals then
+    # legitimately expose the same caller array: only the leaves are compared in that variant)
+    if seedk == "same_array":
+        tensors = [(n, a) for n, a in tensors if n.startswith("x")] if form != "leaf" else []
+    r = alias_oracle(tensors, None, None)
+    if r is not None:
+        return r
+    if keep is not None and not np.array_equal(s1, keep):
+        return ("seed_modified", "the array passed to backward() was modified")
+    # editing a gradient of the first programs in place must not influence a later, independent program
+    ref = None if x1.grad is None else x1.grad.copy()
+    for n, t in (("L1", L1), ("x1", x1), ("L2", L2)):
+        if t.grad is not None and t.grad.flags.writeable and t.grad.size and not (seedk == "same_array"):
+            t.grad[...] = -77.0
+    x3, L3 = build(0)
+    L3.backward(seed_for(L3, 0) if seedk != "same_array" else ops.gtable(shape).astype(dt) if form != "sum" else np.array(1.5, dtype=dt))
+    if ref is not None and not np.array_equal(x3.grad, ref):
+        return ("grad_edit_leaks", "a later independent program computes %s instead of %s after gradients of earlier programs were edited in place" % (x3.grad, ref))
+    return None
+
+
 def check(cell):
+    if cell[0] == "multi":
+        return check_multi(tuple(cell[1]), cell[2], cell[3], cell[4])
     if cell[0] == "conv":
         return check_conv(cell[1], cell[2])
     if cell[0] == "op":
